@@ -146,7 +146,7 @@ LIMIT = 180           # seconds for every later call (normal: milliseconds)
 def warm_up():
     """start = goal on an open 2x2 grid: compiles every kernel with the signatures of the real jobs and
     returns without entering the neighbour loop"""
-    for dtype in ("float64", "float32"):
+    for dtype in ("float64",):       # other dtypes compile on first use (well inside LIMIT)
         run_job({"H": 2, "W": 2, "vals": [[1, 1], [1, 1]], "barriers": [0, 9], "dtype": dtype, "conn": 8,
                  "yax": {"den": 1, "o": 0, "s": 1}, "xax": {"den": 1, "o": 0, "s": 1}, "sp": [0, 0], "gp": [0, 0],
                  "snapS": 1, "snapG": 1})
